@@ -1,6 +1,7 @@
 package persist
 
 import (
+	"flag"
 	"fmt"
 	"os"
 	"path/filepath"
@@ -146,7 +147,8 @@ func TestC04(t *testing.T) {
 	defer os.RemoveAll(dir)
 	nfile := 0
 
-	rt.Check(t, rec, "reopen", 450, 6000, func(t *rapid.T) {
+	flag.Set("rapid.shrinktime", "5s") // rapid cannot shrink these interactive histories much; TestMinimize does
+	rt.Check(t, rec, "reopen", 450, 3000, func(t *rapid.T) {
 		jr.reset()
 		var opener dbgen.Opener
 		storage := "heap"
@@ -166,7 +168,7 @@ func TestC04(t *testing.T) {
 		s := c.s
 		defer func() { c.s.Close() }()
 		o := dbgen.DefaultOpts()
-		o.Persist = draw(t, "persistweight", []int{15, 25, 40})
+		o.Persist = draw(t, "persistweight", []int{20, 35, 50})
 		n := 20 + gen.Uniform(t, "nsteps", 81)
 		for i := 0; i < n && !c.excluded; i++ {
 			if msg := c.step(dbgen.GenStep(t, s.W, o)); msg != "" {
